@@ -216,6 +216,10 @@ pub enum Op {
     /// retry of a settlement: the retained one (same) or a different valid one
     RetrySettle { i: u8, same: bool },
     Observe { i: u8 },
+    /// use a request token obtained earlier (before the request was claimed)
+    ClaimWithStaleToken { i: u8 },
+    /// use a claim grant obtained earlier (before the request was settled)
+    SettleWithStaleGrant { i: u8, kind: u8, len: u8 },
     CrashRecover,
     /// arm a store fault for the next transition
     Arm(Fault),
@@ -242,7 +246,9 @@ fn op() -> impl Strategy<Value = Op> {
         6 => (i.clone(), claimv).prop_map(|(i, v)| Op::Claim { i, v }),
         6 => (i.clone(), settlev, 0u8..4, 0u8..=BUDGET as u8).prop_map(|(i, v, kind, len)| Op::Settle { i, v, kind, len }),
         3 => (i.clone(), any::<bool>()).prop_map(|(i, same)| Op::RetrySettle { i, same }),
-        2 => i.prop_map(|i| Op::Observe { i }),
+        2 => i.clone().prop_map(|i| Op::Observe { i }),
+        2 => i.clone().prop_map(|i| Op::ClaimWithStaleToken { i }),
+        2 => (0u8..6, 0u8..4, 0u8..=BUDGET as u8).prop_map(|(i, kind, len)| Op::SettleWithStaleGrant { i, kind, len }),
         2 => Just(Op::CrashRecover),
         3 => fault.prop_map(Op::Arm),
     ]
@@ -293,6 +299,9 @@ struct Sys {
     txn: u64,
     armed: Fault,
     claims_granted: BTreeMap<u8, u32>,
+    /// spare tokens / grants obtained while they were valid and kept by a (slow) caller
+    stale_tokens: BTreeMap<u8, warp_core::external_action::DurablyRecordedExternalActionRequestV1>,
+    stale_grants: BTreeMap<u8, warp_core::external_action::ExternalActionClaimGrantV1>,
 }
 
 impl Sys {
@@ -356,7 +365,7 @@ impl Sys {
 fn check17(_ctx: &Ctx, c: &Case17, probe: &mut Probe) -> Check {
     let store = FaultStore::new();
     let co = ExternalActionCoordinatorV1::recover(&store).map_err(|e| Fail::new("C17/harness/genesis", format!("{e:?}")))?;
-    let mut s = Sys { store, co, model: BTreeMap::new(), txn: 0, armed: Fault::None, claims_granted: BTreeMap::new() };
+    let mut s = Sys { store, co, model: BTreeMap::new(), txn: 0, armed: Fault::None, claims_granted: BTreeMap::new(), stale_tokens: BTreeMap::new(), stale_grants: BTreeMap::new() };
     let mut crashes = 0;
     for (step, o) in c.ops.iter().enumerate() {
         let what = format!("step {step} {o:?}");
@@ -407,7 +416,8 @@ fn check17(_ctx: &Ctx, c: &Case17, probe: &mut Probe) -> Check {
                             ReqV::TwoAttempts => "UnsupportedAttemptBudget",
                             _ => "RequestBudgetLimitExceeded",
                         };
-                        vensure_eq!(class_of::<()>(&Err(e)), want, "C17/request/constructor-error-class", "{what}");
+                        let got = class_of::<()>(&Err(e));
+                        vensure_eq!(got, want, "C17/request/constructor-error-class", "{what}");
                     }
                     Ok(req) => {
                         let ctx = s.next_ctx();
@@ -441,6 +451,9 @@ fn check17(_ctx: &Ctx, c: &Case17, probe: &mut Probe) -> Check {
                 match (&stage, tok) {
                     (None, r) => vensure_eq!(class_of(&r), "MissingRequest", "C17/claim/unknown-request", "{what}"),
                     (Some(Stage::Requested), Ok(tok)) => {
+                        if let Ok(spare) = s.co.recorded_request(id) {
+                            s.stale_tokens.insert(*i, spare);
+                        }
                         let reg = registry();
                         let auth = match v {
                             ClaimV::UnregisteredAdapter => {
@@ -499,6 +512,9 @@ fn check17(_ctx: &Ctx, c: &Case17, probe: &mut Probe) -> Check {
                     (Some(Stage::Settled(..)), r) => vensure_eq!(class_of(&r), "DuplicateSettlement", "C17/settle/second-settlement-not-refused", "{what}"),
                     (Some(Stage::Claimed), Err(e)) => vfail!("C17/grants/claim-grant-getter", "{what}: {e:?}"),
                     (Some(Stage::Claimed), Ok(g)) => {
+                        if let Ok(spare) = s.co.claim_grant(id) {
+                            s.stale_grants.insert(*i, spare);
+                        }
                         let claim = g.claim();
                         let n = if matches!(v, SettleV::OverBudget) { BUDGET as usize + 1 + *len as usize } else { *len as usize };
                         let bytes: Vec<u8> = (0..n).map(|b| (b as u8).wrapping_mul(31).wrapping_add(*kind)).collect();
@@ -540,6 +556,64 @@ fn check17(_ctx: &Ctx, c: &Case17, probe: &mut Probe) -> Check {
                             vensure_eq!(cls, expect, "C17/settle/error-class", "{what}");
                         }
                     }
+                }
+            }
+            Op::ClaimWithStaleToken { i } => {
+                if let Some(tok) = s.stale_tokens.remove(i) {
+                    let req = request(*i);
+                    let auth = registry().authorize(&req, adapter(0)).map_err(|e| Fail::new("C17/harness/authorize", format!("{e:?}")))?;
+                    let ctx = s.next_ctx();
+                    let stage = s.model.get(i).cloned();
+                    let r = claim_external_action(&mut s.store, &mut s.co, ctx, tok, auth, req.basis_digest, 0, digest(&format!("c17:lease:stale:{step}")));
+                    let cls = class_of(&r);
+                    transition = Some((cls.clone(), r.is_ok()));
+                    match stage {
+                        Some(Stage::Requested) => {
+                            if let Ok(g) = &r {
+                                vensure!(s.store.flushed.last() == Some(&g.claim_commit_digest()), "C17/durability/claim-grant-returned-before-its-commit-was-flushed", "{what}");
+                                *s.claims_granted.entry(*i).or_default() += 1;
+                                vensure!(s.claims_granted[i] <= 1, "C17/claim/second-claim-grant-issued", "{what}");
+                                s.model.insert(*i, Stage::Claimed);
+                            } else if s.armed == Fault::None {
+                                vfail!("C17/claim/valid-claim-refused", "{what}: {cls}");
+                            }
+                        }
+                        Some(_) => {
+                            vensure!(r.is_err(), "C17/claim/second-claim-grant-issued", "{what}: a token kept from before the claim was honoured again");
+                            vensure_eq!(cls, "DuplicateClaim", "C17/claim/error-class", "{what}");
+                        }
+                        None => vensure!(r.is_err(), "C17/claim/claim-for-unrecorded-request", "{what}"),
+                    }
+                    probe.class("stale-token-used");
+                }
+            }
+            Op::SettleWithStaleGrant { i, kind, len } => {
+                if let Some(g) = s.stale_grants.remove(i) {
+                    let req = request(*i);
+                    let claim = g.claim();
+                    let bytes: Vec<u8> = (0..*len as usize).map(|b| (b as u8).wrapping_mul(31).wrapping_add(*kind)).collect();
+                    let cand = ExternalActionSettlementCandidateV1::new(req.request_id(), claim.attempt_id, claim.adapter_id, kind_of(*kind), req.settlement_schema_digest, req.basis_digest, bytes.clone(), digest("c17:schema-admission"), digest("c17:external-evidence"));
+                    let ctx = s.next_ctx();
+                    let stage = s.model.get(i).cloned();
+                    let r = admit_external_action_settlement(&mut s.store, &mut s.co, ctx, g, cand);
+                    let cls = class_of(&r);
+                    transition = Some((cls.clone(), r.is_ok()));
+                    match stage {
+                        Some(Stage::Claimed) => {
+                            if let Ok(a) = &r {
+                                vensure!(s.store.flushed.last() == Some(&a.settlement_commit_digest()), "C17/durability/settlement-returned-before-its-commit-was-flushed", "{what}");
+                                s.model.insert(*i, Stage::Settled(*kind, bytes));
+                            } else if s.armed == Fault::None {
+                                vfail!("C17/settle/valid-settlement-refused", "{what}: {cls}");
+                            }
+                        }
+                        Some(Stage::Settled(..)) => {
+                            vensure!(r.is_err(), "C17/settle/second-settlement-admitted", "{what}: a grant kept from before the settlement was honoured again");
+                            vensure_eq!(cls, "DuplicateSettlement", "C17/settle/error-class", "{what}");
+                        }
+                        _ => vensure!(r.is_err(), "C17/settle/settlement-without-claim", "{what}"),
+                    }
+                    probe.class("stale-grant-used");
                 }
             }
             Op::RetrySettle { i, same } => {
@@ -588,10 +662,10 @@ fn check17(_ctx: &Ctx, c: &Case17, probe: &mut Probe) -> Check {
                         Op::Request { i, .. } => {
                             s.model.insert(*i, Stage::Requested);
                         }
-                        Op::Claim { i, .. } => {
+                        Op::Claim { i, .. } | Op::ClaimWithStaleToken { i } => {
                             s.model.insert(*i, Stage::Claimed);
                         }
-                        Op::Settle { i, kind, len, .. } => {
+                        Op::Settle { i, kind, len, .. } | Op::SettleWithStaleGrant { i, kind, len } => {
                             let bytes: Vec<u8> = (0..*len as usize).map(|b| (b as u8).wrapping_mul(31).wrapping_add(*kind)).collect();
                             s.model.insert(*i, Stage::Settled(*kind, bytes));
                         }
